@@ -66,52 +66,71 @@ func checkC21(c *Ctx, r *Report) {
 	loc := r.MustFunc(r.Rule("R1", "E-GUARD", "appends to the Locations result only for addresses in r.healthy; loop continuation mentions MaxReplica and the emptiness of the result; the no-healthy path returns the first ordered node", 2), "(*"+tRing+").Locations")
 	r1 := r.Prop + ".R1"
 	if loc != nil {
+		// the replica set is built in Locations or in a helper of the package whose
+		// result Locations returns; fields reach the helper as arguments
+		builders := []*ssa.Function{loc}
+		for _, cs := range callsIn(loc) {
+			h := cs.Instr.Common().StaticCallee()
+			hv, isV := cs.Instr.(ssa.Value)
+			if h == nil || !isV || h.Pkg != loc.Pkg || len(h.Blocks) == 0 || (h.Object() != nil && h.Object().Exported()) {
+				continue
+			}
+			for _, ret := range returnsOf(loc) {
+				if len(ret.Results) == 1 && mentions(unspill(ret.Results[0]), func(v ssa.Value) bool { return v == hv }, 3) {
+					builders = append(builders, h)
+					break
+				}
+			}
+		}
+		ordered := func(v ssa.Value) bool { return isCallTo(v, "(*"+pkgHRW+".RendezvousHash).GetOrderedNodes") }
 		n := 0
-		instrsOf(loc, func(in ssa.Instruction) {
-			cl, ok := in.(*ssa.Call)
-			if !ok || calleeName(cl.Common()) != "builtin.append" {
-				return
-			}
-			n++
-			okH := guardedBy(cl, func(cond ssa.Value, val bool) int {
-				if c2, isC := cond.(*ssa.Call); isC && calleeName(c2.Common()) == "(utils/stringset.Set).Has" && mentionsField(c2.Call.Args[0], tRing+".healthy") {
-					return tern(val, 1, -1)
+		for _, bf := range builders {
+			bf := bf
+			instrsOf(bf, func(in ssa.Instruction) {
+				cl, ok := in.(*ssa.Call)
+				if !ok || calleeName(cl.Common()) != "builtin.append" {
+					return
 				}
-				return 0
-			})
-			// the appended address is the tested one and comes from the ordered nodes
-			addrOK := mentionsField(cl, pkgHRW+".RendezvousHashNode.Label") &&
-				mentions(cl, func(v ssa.Value) bool { return isCallTo(v, "(*"+pkgHRW+".RendezvousHash).GetOrderedNodes") }, 12)
-			// loop condition
-			loopOK := false
-			for _, iff := range controlConds(cl.Block()) {
-				if mentionsField(iff.Cond, pkgRing+".Config.MaxReplica") {
-					loopOK = true
-				}
-			}
-			if !loopOK {
-				// short-circuit form: the MaxReplica test is a separate If in the loop header chain
-				instrsOf(loc, func(in2 ssa.Instruction) {
-					if iff, isIf := in2.(*ssa.If); isIf && mentionsField(iff.Cond, pkgRing+".Config.MaxReplica") && reaches(iff.Block(), cl.Block()) && reaches(cl.Block(), iff.Block()) {
+				n++
+				okH := guardedBy(cl, func(cond ssa.Value, val bool) int {
+					if c2, isC := cond.(*ssa.Call); isC && calleeName(c2.Common()) == "(utils/stringset.Set).Has" && mentionsFieldIP(c, c2.Call.Args[0], tRing+".healthy") {
+						return tern(val, 1, -1)
+					}
+					return 0
+				})
+				// the appended address is the tested one and comes from the ordered nodes
+				addrOK := mentionsField(cl, pkgHRW+".RendezvousHashNode.Label") && mentionsIP(c, cl, ordered, 2)
+				// loop condition
+				loopOK := false
+				for _, iff := range controlConds(cl.Block()) {
+					if mentionsFieldIP(c, iff.Cond, pkgRing+".Config.MaxReplica") {
 						loopOK = true
 					}
-				})
-			}
-			emptyOK := false
-			instrsOf(loc, func(in2 ssa.Instruction) {
-				if iff, isIf := in2.(*ssa.If); isIf && reaches(iff.Block(), cl.Block()) && reaches(cl.Block(), iff.Block()) {
-					// a test of the emptiness of the result so far, in any spelling
-					zf := lenZeroFact(func(x ssa.Value) bool {
-						return !mentionsField(x, tRing+".healthy") && !isCallTo(x, "(*"+pkgHRW+".RendezvousHash).GetOrderedNodes")
-					})
-					if zf(iff.Cond, true) != 0 {
-						emptyOK = true
-					}
 				}
+				if !loopOK {
+					// short-circuit form: the MaxReplica test is a separate If in the loop header chain
+					instrsOf(bf, func(in2 ssa.Instruction) {
+						if iff, isIf := in2.(*ssa.If); isIf && mentionsFieldIP(c, iff.Cond, pkgRing+".Config.MaxReplica") && reaches(iff.Block(), cl.Block()) && reaches(cl.Block(), iff.Block()) {
+							loopOK = true
+						}
+					})
+				}
+				emptyOK := false
+				instrsOf(bf, func(in2 ssa.Instruction) {
+					if iff, isIf := in2.(*ssa.If); isIf && reaches(iff.Block(), cl.Block()) && reaches(cl.Block(), iff.Block()) {
+						// a test of the emptiness of the result so far, in any spelling
+						zf := lenZeroFact(func(x ssa.Value) bool {
+							return !mentionsFieldIP(c, x, tRing+".healthy") && !bindsTo(c, x, ordered, 2)
+						})
+						if zf(iff.Cond, true) != 0 {
+							emptyOK = true
+						}
+					}
+				})
+				r.Check(okH && addrOK && loopOK && emptyOK, r1, bf, "append to replica set", cl, "healthy member among the ordered nodes, bounded by MaxReplica unless still empty",
+					fmt.Sprintf("an address enters the replica set without: healthy-set membership (%v), coming from the ordered node list (%v), MaxReplica bound in the loop condition (%v), 'still empty' extension (%v)", okH, addrOK, loopOK, emptyOK))
 			})
-			r.Check(okH && addrOK && loopOK && emptyOK, r1, loc, "append to replica set", cl, "healthy member among the ordered nodes, bounded by MaxReplica unless still empty",
-				fmt.Sprintf("an address enters the replica set without: healthy-set membership (%v), coming from the ordered node list (%v), MaxReplica bound in the loop condition (%v), 'still empty' extension (%v)", okH, addrOK, loopOK, emptyOK))
-		})
+		}
 		if n == 0 {
 			r.Bad(r1, loc, "append", nil, "Locations never builds a replica set")
 		}
@@ -181,22 +200,44 @@ func checkC21(c *Ctx, r *Report) {
 		Ctors: []string{pkgRing + ".New"},
 		Except: map[string]string{"(*" + tRing + ").Refresh": "the refresh goroutine is the only writer; its unlocked reads of its own previous writes cannot race with another writer (readers take the read lock)"}}})
 	if rf := r.MustFunc(r3, "(*"+tRing+").Refresh"); rf != nil {
-		sets := locksets(rf, lockState{})
+		// the three stores are in Refresh or in one helper method it calls on the same ring
+		holder := rf
+		var holderCall ssa.CallInstruction
+		if len(storesToField(rf, tRing+".addrs")) == 0 {
+			for _, cs := range callsIn(rf) {
+				h := cs.Instr.Common().StaticCallee()
+				if h == nil || h.Pkg != rf.Pkg || len(h.Blocks) == 0 || len(h.Params) == 0 || len(storesToField(h, tRing+".addrs")) == 0 {
+					continue
+				}
+				if a := cs.Instr.Common().Args; len(a) > 0 && a[0] == ssa.Value(rf.Params[0]) {
+					holder, holderCall = h, cs.Instr
+				}
+			}
+		}
+		sets := locksets(holder, lockState{})
 		var blocks []*ssa.BasicBlock
 		okAll := true
 		var addrsVal ssa.Value
 		for _, f := range []string{"addrs", "hash", "healthy"} {
-			sts := storesToField(rf, tRing+"."+f)
+			sts := storesToField(holder, tRing+"."+f)
 			if len(sts) != 1 {
 				okAll = false
 				continue
 			}
-			if sets[sts[0]][lk(rf.Params[0], "mu")] < 2 {
+			if sets[sts[0]][lk(holder.Params[0], "mu")] < 2 {
 				okAll = false
 			}
 			blocks = append(blocks, sts[0].Block())
 			if f == "addrs" {
 				addrsVal = sts[0].Val
+				if holderCall != nil {
+					addrsVal = nil
+					for i, p := range holder.Params {
+						if sts[0].Val == ssa.Value(p) && i < len(holderCall.Common().Args) {
+							addrsVal = holderCall.Common().Args[i]
+						}
+					}
+				}
 			}
 		}
 		for _, b := range blocks {
@@ -334,9 +375,12 @@ func checkC22(c *Ctx, r *Report) {
 	}
 	gon := r.MustFunc(r1, "(*"+tRH+").GetOrderedNodes")
 	if gon != nil {
-		rev := len(callsInNamed(gon, "sort.Reverse")) > 0
-		desc := lessOp == token.LSS && rev || lessOp == token.GTR && !rev
-		r.Check(desc && len(callsInNamed(gon, "sort.Sort", "sort.Stable")) == 1, r1, gon, "descending order", nil, "ascending comparator under sort.Reverse", "the node list is not sorted by descending score")
+		// direction of the ordering actually handed to the sort: sort.Reverse, wrapper
+		// types delegating to another Less and the innermost comparison are composed
+		sorts := callsInNamed(gon, "sort.Sort", "sort.Stable")
+		desc := len(sorts) == 1 && sortDirection(c, sorts[0].Instr.Common().Args[0], "(*"+tNode+").Score", 0) == -1
+		_ = lessOp
+		r.Check(desc, r1, gon, "descending order", nil, "the sorted interface orders by descending score", "the node list is not sorted by descending score")
 	}
 
 	r2 := r.Rule("R2", "E-OWN", "RendezvousHash.Nodes is stored only by AddNode (append of a new node) and RemoveNode (splice at a label match); GetOrderedNodes sorts a fresh copy", 3)
